@@ -429,7 +429,7 @@ pub fn run(args: &Args) -> Report {
     for a in &ha {
         for b in &hb {
             let (a2, b2) = (a.clone(), b.clone());
-            cases.push(Case { label: format!("A: victim A:[{}] B:[{}] + bystander + follow-up", op_str(a), op_str(b)), exec: Box::new(move |r| exec_a(&a2, &b2, r)) });
+            cases.push(Case { try_unbounded: false, max_k: u32::MAX, label: format!("A: victim A:[{}] B:[{}] + bystander + follow-up", op_str(a), op_str(b)), exec: Box::new(move |r| exec_a(&a2, &b2, r)) });
         }
     }
     let mut seqs: Vec<Vec<Cyc>> = Vec::new();
@@ -449,7 +449,7 @@ pub fn run(args: &Args) -> Report {
     seqs.push(long);
     for s in seqs {
         let s2 = s.clone();
-        cases.push(Case { label: format!("B: cycles {s:?}"), exec: Box::new(move |r| exec_b(&s2, r)) });
+        cases.push(Case { try_unbounded: false, max_k: u32::MAX, label: format!("B: cycles {s:?}"), exec: Box::new(move |r| exec_b(&s2, r)) });
     }
     let plan = Plan {
         ks: if thorough { vec![0, 1, 2, 3] } else { vec![0, 1, 2] },
